@@ -234,8 +234,15 @@ fn judge(c: &DCase, g: &Grouped, target: &PathBuf) -> Verdict {
     }
 
     // ---- the real run ---------------------------------------------------------------------------
-    let run = Run::fclones(&g.cd).args(&args).stdin(g.report_bytes.clone());
-    let dedupe_cmd = format!("{} < report", run.cmdline());
+    // the report records the base directory of the `group` run, so the dedupe command may be started
+    // anywhere: every other case runs it from the parent of the tree
+    let elsewhere = c.tree.entries.len() % 2 == 1;
+    let mut run = Run::fclones(&g.cd).args(&args).stdin(g.report_bytes.clone());
+    if elsewhere {
+        run = run.cwd(&g.cd.base);
+        sig.push("dedupe-started-in-another-directory".into());
+    }
+    let dedupe_cmd = format!("{}{} < report", if elsewhere { "cd .. && " } else { "" }, run.cmdline());
     let out = run.run();
     let after = Snapshot::take(&[&tree, target]);
     let ctxt = format!("{}\n{}", ctxt0, dedupe_cmd);
@@ -335,7 +342,7 @@ pub fn check(tier: Tier) -> i32 {
     cleanup_process_scratch();
     ctx.finish(
         "exploration",
-        "proptest-generated groups of tiny files (names with regex metacharacters and non-ASCII text, hard-link subsets, 1-3 roots, nesting 0-2) with frequently tied mtimes/atimes set by the harness after `group` (ctime/btime read back with stat); dedupe options: --priority lists of length 0-3 over all 12 values, keep/drop globs built from actual names and directories, n in 1..3 explicit or inherited from `group --rf-over`, --isolate / -H explicit or inherited through the report header (text and JSON). A second generator produces groups of 20-48 replicas (more than 20 sub-groups, many tied keys). Oracle: reference keep/drop rule (sub-groups: isolate roots in order, file id, singletons; stable sorts from the last priority to the first; forced retention by patterns; top-up to n from the front) vs the set of files a real run changed; separate clauses for keep patterns, drop patterns and sub-group atomicity. Non-trivial = >=2 droppable sub-groups in some group AND (chained priorities with a tie in the first key OR a keep pattern hitting a multi-path sub-group OR a setting inherited from the header).",
+        "proptest-generated groups of tiny files (names with regex metacharacters and non-ASCII text, hard-link subsets, 1-3 roots, nesting 0-2) with frequently tied mtimes/atimes set by the harness after `group` (ctime/btime read back with stat); dedupe options: --priority lists of length 0-3 over all 12 values, keep/drop globs built from actual names and directories, n in 1..3 explicit or inherited from `group --rf-over`, --isolate / -H explicit or inherited through the report header (text and JSON); every other dedupe command is started in a directory other than the one `group` ran in. A second generator produces groups of 20-48 replicas (more than 20 sub-groups, many tied keys). Oracle: reference keep/drop rule (sub-groups: isolate roots in order, file id, singletons; stable sorts from the last priority to the first; forced retention by patterns; top-up to n from the front) vs the set of files a real run changed; separate clauses for keep patterns, drop patterns and sub-group atomicity. Non-trivial = >=2 droppable sub-groups in some group AND (chained priorities with a tie in the first key OR a keep pattern hitting a multi-path sub-group OR a setting inherited from the header).",
         &["how a time/nesting priority ranks a sub-group whose members differ in that key is undocumented: such cases skip the exact comparison (counted)", "glob semantics per the reference matcher (README Path Globbing)"],
     )
 }
